@@ -6,7 +6,10 @@ import sys
 import tempfile
 
 cfg = json.loads(sys.stdin.read())
-os.environ["APP_ENV"] = cfg["app_env"]
+if cfg["app_env"] is None:
+    os.environ.pop("APP_ENV", None)      # the variable is not set at all
+else:
+    os.environ["APP_ENV"] = cfg["app_env"]
 os.environ["DATA_ENV"] = cfg["data_env"]
 os.environ["MODEL_S3_BUCKET"] = cfg["bucket"]
 os.environ["MODEL_S3_PATH_ROOT"] = cfg["root"]
@@ -22,8 +25,10 @@ PRE_CSV = {}
 
 class FakeS3:
     def put_object(self, **kw):
-        PUTS.append({"bucket": kw.get("Bucket"), "key": kw.get("Key"), "content_type": kw.get("ContentType")})
-        return {"ok": True}
+        k = sum(1 for p in PUTS if "marker" not in p)
+        ack = cfg.get("nack_put") is None or k != cfg["nack_put"]
+        PUTS.append({"bucket": kw.get("Bucket"), "key": kw.get("Key"), "content_type": kw.get("ContentType"), "ack": ack})
+        return {"ok": True} if ack else None     # the service does not acknowledge this put
 
     def get_object(self, **kw):
         # the baseline may be read from remote storage (the production way of calling the client): served from memory
@@ -47,6 +52,7 @@ import logging  # noqa: E402
 import elexmodel  # noqa: E402
 
 assert elexmodel.__file__.startswith(cfg["src"]), elexmodel.__file__
+import elexmodel.utils.file_utils  # noqa: E402,F401  (reads the environment now, before the harness modules set their own defaults)
 logging.disable(logging.CRITICAL)
 import random  # noqa: E402
 
